@@ -52,6 +52,8 @@ def r02_4(ck: Check) -> None:
     sp = Spec(s, ("v",))
     require_guard(ck, "R02.4", s, sp, "v <= 0", "zero and negative amounts rejected")
     require_guard(ck, "R02.4", s, sp, "v > %d" % MAX_DOC, "amounts above the documented maximum supply rejected")
+    from .c12 import exact_guard
+    exact_guard(ck, "R02.4", s, sp, "v <= 0 or v > %d" % MAX_DOC, "amounts in (0, maximum] — including the maximum itself — are accepted")
     summ = ck.summ(CONS + "validate_block_by_itself")
     spo = Spec(summ, ("block", "now"), forall=[("t", "block.transactions[1:]"), ("o", "t.outputs")])
     require_guard(ck, "R02.4", summ, spo, "o.value <= 0", "every output of every ordinary transaction > 0")
@@ -142,4 +144,6 @@ def check(ck: Check) -> None:
     ck.run("R01.10", "apply removes spent and adds created outputs", lambda: rule_uto_apply(ck, "R01.10"))
     from .c16 import r16_schedule
     ck.run("R16", "subsidy schedule (shared with C16)", lambda: r16_schedule(ck))
+    from .c03 import r03_2
+    ck.run("R03.2", "the unspent set of a block is built from its PARENT's set (fork-safe conservation)", lambda: r03_2(ck))
     ck.assume("no output is removed twice and every removed output existed: C01 (R01.3, R01.7)")
